@@ -427,6 +427,13 @@ def run(chk, prog):
                         and s['rv']['b'].get('k') == 'const' and 'int' in s['rv']['b'] \
                         and any('enumerate' in a.lower() for a in lt.prov(g, s['rv']['a'])):
                     shown.add(s['rv']['b']['int'])
+                # `(1usize..).zip(choices)`: the shown number starts at the constant the range starts with
+                if s['k'] == 'assign' and s['rv']['k'] == 'agg' and 'RangeFrom' in (s['rv'].get('adt') or '') \
+                        and s['rv']['ops'] and s['rv']['ops'][0].get('k') == 'const' and 'int' in s['rv']['ops'][0]:
+                    zipped = any(callee_short(t2).endswith('::zip') and any(
+                        'agg:RangeFrom::RangeFrom' in lt.prov(g, a2) for a2 in t2['args']) for _, t2 in g.calls())
+                    if zipped:
+                        shown.add(s['rv']['ops'][0]['int'])
         taken = set()
         for bb, si, s in pi.stmts():
             if s['k'] == 'assign' and s['rv']['k'] == 'binop' and s['rv']['op'].startswith('Sub') \
